@@ -7,7 +7,7 @@ from . import core
 from .c13 import summary_of
 
 
-def gen_replay(run, module, cfg, test, name, env=None, workers=12, heap="8g", simulate=None, depth=None, tag="CASE", dedupe=False, timeout=3000):
+def gen_replay(run, module, cfg, test, name, env=None, workers=12, heap="8g", simulate=None, depth=None, tag="CASE", dedupe=False, timeout=3000, memlimit_gb=None):
     r = run.tlc_must_pass(module, cfg, workers=workers, heap=heap, timeout=timeout, name=name, simulate=simulate, depth=depth)
     cases = os.path.join(run.work, "%s_cases.ndjson" % name)
     recs = core.parse_cases(r["out"], tag=tag)
@@ -19,7 +19,7 @@ def gen_replay(run, module, cfg, test, name, env=None, workers=12, heap="8g", si
     outp = os.path.join(run.work, "%s_out.txt" % name)
     e = {"VERIF_CASES": cases, "VERIF_OUT": outp}
     e.update(env or {})
-    run.drive(run._binary, test, env=e, timeout=timeout, tag=name)
+    run.drive(run._binary, test, env=e, timeout=timeout, tag=name, memlimit_gb=memlimit_gb)
     viol, samples, summary = summary_of(outp)
     if summary is None:
         raise core.Inconclusive("driver %s did not finish" % test)
